@@ -387,6 +387,21 @@ DUPS['same-step-twice'] = _step(['g.txt']) * 2
 DUPS['same-multi-step-twice'] = _step(['g.txt', 'h.txt']) * 2
 DUPS['same-lib-twice'] = "static_library('l', files=['a.c'])\n" * 2
 DUPS['same-pch-twice'] = "precompiled_header('pp', file='h.h')\n" * 2
+# one name twice INSIDE one declaration / one rule (nothing compares a batch with itself
+# unless somebody thought of it)
+DUPS['multi-step-same-name-twice'] = _step(['g.txt', 'g.txt'])
+DUPS['multi-step-same-name-twice-of-three'] = _step(['g.txt', 'h.txt', 'g.txt'])
+DUPS['pkg-config-uninstalled-name-clash'] = (
+    "project('p', '1.0')\n"
+    "pkg_config('foo', version='1.0')\npkg_config('foo-uninstalled', version='1.0')\n")
+DUPS['pkg-config-same-name-twice'] = (
+    "project('p', '1.0')\npkg_config('foo', version='1.0')\npkg_config('foo', version='2.0')\n")
+# the same header precompiled for two targets under one (implicit) output name
+DUPS['pch-string-two-targets'] = ("executable('one', files=['a.c'], pch='h.h')\n"
+                                  "executable('two', files=['b.c'], pch='h.h')\n")
+DUPS['pch-string-two-targets-other-includes'] = (
+    "executable('one', files=['a.c'], pch='h.h', includes=['my dir'])\n"
+    "executable('two', files=['b.c'], pch='h.h', compile_options=['-DQ'])\n")
 
 
 def run_dup(case, res):
